@@ -8,7 +8,7 @@ let key_of_char c =
 let char_of_key (a, b) =
   if b = N0 then Char.chr (48 + int_of_n a) else Char.chr (96 + int_of_n b)
 let digit c = if c >= '0' && c <= '9' then n_of_int (Char.code c - 48) else failwith "bad-digit"
-let has_param o = List.mem o ['W'; 'X'; 'P'; 'R'; 'F'; 'K'; '+']
+let has_param o = List.mem o ['W'; 'X'; 'P'; 'R'; 'F'; 'K'; '+'; 'U'; 's']
 (* like the harness: an operation letter whose parameter is missing ends the script *)
 let rec parse_script = function
   | [] -> []
@@ -20,12 +20,13 @@ let rec parse_script = function
          let op = (match o with
              | 'W' -> Some (KW (key_of_char p)) | 'X' -> Some (KX (key_of_char p)) | 'P' -> Some (KP (digit p))
              | 'R' -> Some (KR (key_of_char p)) | 'F' -> Some (KF (digit p)) | 'K' -> Some (KK (key_of_char p))
-             | '+' -> Some (KAdd (digit p)) | _ -> None) in
+             | '+' -> Some (KAdd (digit p)) | 'U' -> Some (KU (key_of_char p)) | 's' -> Some (KSp (digit p)) | _ -> None) in
          (match op with Some x -> x :: parse_script r | None -> parse_script r))
     else
       (match o with
        | 'A' -> KApp :: parse_script rest | 'w' -> KCw :: parse_script rest | 'a' -> KAb :: parse_script rest
        | 'L' -> KLook :: parse_script rest | 'r' -> KCr :: parse_script rest | 'f' -> KCf :: parse_script rest
+       | 'u' -> KCu :: parse_script rest | 'x' -> KAu :: parse_script rest
        | _ -> parse_script rest)
 let show_zz z = string_of_z z
 let show_zz_unused z = match z with
@@ -40,12 +41,14 @@ let show_cm = function
   | CAppend (f, _) -> "A" ^ string_of_n f
   | CRead (f, _) -> "R" ^ string_of_n f
   | COther (f, _) -> "?" ^ string_of_n f
+  | CUpd u -> "U" ^ string_of_n u.usf ^ "." ^ string_of_n u.uff
 let show_op = function
   | KW k -> Printf.sprintf "W%c" (char_of_key k) | KX k -> Printf.sprintf "X%c" (char_of_key k)
   | KP f -> "P" ^ string_of_n f | KAdd z -> "+" ^ string_of_n z | KApp -> "A" | KCw -> "w" | KAb -> "a"
   | KR k -> Printf.sprintf "R%c" (char_of_key k) | KLook -> "L" | KCr -> "r" | KCf -> "f"
   | KF g -> "F" ^ string_of_n g | KK k -> Printf.sprintf "K%c" (char_of_key k)
-let anchor_of_cm = function CWrite (f, _) | CAppend (f, _) | CRead (f, _) | COther (f, _) -> string_of_n f | CIdle -> "?"
+  | KU k -> Printf.sprintf "U%c" (char_of_key k) | KSp n -> "s" ^ string_of_n n | KCu -> "u" | KAu -> "x"
+let anchor_of_cm = function CWrite (f, _) | CAppend (f, _) | CRead (f, _) | COther (f, _) -> string_of_n f | CIdle -> "?" | CUpd u -> string_of_n u.uff
 let show_event (t, e) =
   let ts = string_of_n t in
   match e with
@@ -63,6 +66,9 @@ let show_event (t, e) =
      | OOpenR None -> "-"
      | OFree b -> if b then "+" else "-"
      | OAdd id -> (match id with Zneg _ -> ":-" | _ -> ":" ^ show_zz id)
+     | OUpd (Some (sf, ff)) -> "+" ^ string_of_n sf ^ ">" ^ string_of_n ff
+     | OUpd None -> "-"
+     | OSp id -> ":" ^ show_zz id
      | OLook (l, whole) ->
        "[" ^ String.concat "," (List.map (fun (id, sz) -> show_zz id ^ ":" ^ string_of_n sz) l)
        ^ (if whole then "" else "...") ^ "]")
